@@ -534,6 +534,7 @@ ASSUMPTIONS = [
     "http.cookiejar.domain_match / is_HDN are interpreted from the standard library's source (scenario cookiejar.domain_match); inside stickycookie.domain_match the call is replaced by exactly the post-condition proved there",
     "re.Pattern.search for IPV4_RE (r'\\.\\d+$', re.ASCII) is the SMT regular-language membership (translated from CPython's own parse tree); str.strip('.') is an uninterpreted function with true facts (result clean, identity on clean input, one-character unfolding); str.rfind by its last-occurrence characterisation",
     "T1 response/request: stickycookie.domain_match is an arbitrary predicate with recorded arguments (its contract is separate); Set-Cookie parsing (Response.cookies), cookies.is_expired, flowfilter.match and cookies.format_cookie_header are abstracted (exercised for real in T2)",
+    "all histories: the jar invariant 'an entry (domain, port, path) -> {name: value} was stored by a response whose ckey is that triple and whose host passed domain_match' is established by scenario response (one parsed cookie per call; the loop body treats each cookie independently) and used entry-wise by scenario request (the loop body treats each jar entry independently, so two entries with symbolic keys stand for any number)",
     "T1 request: jar with two entries (2 + 1 cookies) and symbolic keys; request target ASCII; the cookie path of a cookie without Path attribute is '/' (mitmproxy's choice; RFC 6265 5.1.4 default-path would be the directory of the setting request's path)",
 ]
 
